@@ -3,6 +3,7 @@
 //! early, late, far beyond the deadline), idle jumps and hostile probes, followed by a
 //! drain phase and post-mortem probes.
 
+use crate::cred::Cred;
 use crate::ctx::Ctx;
 use crate::gen;
 use crate::mutate;
@@ -37,6 +38,9 @@ pub struct Profile {
     pub fast_responses: bool,
     /// push against the outstanding limit
     pub hammer_limit: bool,
+    /// application attribute lists with duplicates and pre-populated credential / integrity /
+    /// fingerprint attributes (C13)
+    pub rich_app: bool,
 }
 
 impl Profile {
@@ -58,6 +62,7 @@ impl Profile {
             long_idle: false,
             fast_responses: false,
             hammer_limit: false,
+            rich_app: false,
         }
     }
 }
@@ -116,27 +121,55 @@ pub struct Walk<'a> {
     pub st_prefer_sha: bool,
     pub probed: Vec<Id>,
     pub requests_seen: usize,
+    pub cred: Cred,
 }
 
-pub fn app_attrs(rng: &mut Rng, max: usize) -> (StunAttributes, String) {
+pub const APP_KEY: &str = "application-own-key";
+
+/// Application attribute list: (library object, attributes in insertion order, description)
+pub fn app_attrs(rng: &mut Rng, max: usize, rich: bool) -> (StunAttributes, Vec<LAttr>, String) {
     let mut a = StunAttributes::default();
-    let mut names = Vec::new();
+    let mut list: Vec<LAttr> = Vec::new();
     let cfg = gen::GenCfg { max_blob: 40 };
-    for _ in 0..rng.below(max as u64 + 1) {
-        let k = *rng.pick(&[7usize, 14, 12, 13, 15, 17, 20, 21, 16, 34, 30]);
-        let l = gen::attr_of_kind(rng, k, &cfg);
-        if let Ok(x) = crate::bridge::to_lib(&l, None) {
+    let app_key = stun_rs::HMACKey::new_short_term(APP_KEY).ok();
+    let n = rng.below(max as u64 + 1);
+    for _ in 0..n {
+        let l = if rich {
+            match rng.below(10) {
+                // credential attributes the mechanism must override
+                0 => LAttr::UserName(gen::stable_string(rng, 1, 12)),
+                1 => LAttr::realm(&format!("app-realm-{}", rng.below(9))),
+                2 => LAttr::nonce(&format!("app-nonce-{}", rng.below(9))),
+                3 => match rng.below(3) {
+                    0 => LAttr::UserHash { user: "app-user".into(), realm: "app-realm".into() },
+                    1 => LAttr::PasswordAlgorithm { alg: 1 + rng.below(2) as u16, params: vec![] },
+                    _ => LAttr::PasswordAlgorithms(vec![(2, vec![]), (1, vec![])]),
+                },
+                4 => rng.pick(&[LAttr::MessageIntegrity, LAttr::MessageIntegritySha256, LAttr::Fingerprint]).clone(),
+                _ => {
+                    let k = rng.usize_below(gen::ORDINARY_KINDS);
+                    gen::attr_of_kind(rng, k, &cfg)
+                }
+            }
+        } else {
+            let k = *rng.pick(&[7usize, 14, 12, 13, 15, 17, 20, 21, 16, 34, 30]);
+            gen::attr_of_kind(rng, k, &cfg)
+        };
+        if let Ok(x) = crate::bridge::to_lib(&l, app_key.as_ref()) {
             a.add(x);
-            names.push(l.kind_name());
+            list.push(l);
         }
     }
-    (a, names.join(","))
+    let names: Vec<&str> = list.iter().map(|l| l.kind_name()).collect();
+    let desc = names.join(",");
+    (a, list, desc)
 }
 
 impl<'a> Walk<'a> {
     pub fn new(cfg: SimCfg, p: &'a Profile, rng: &mut Rng) -> Result<Walk<'a>, String> {
         let sim = Sim::new(cfg.clone(), p.monitors)?;
-        Ok(Walk { sim, resp: Responder::new(&cfg), net: Vec::new(), p, st_prefer_sha: rng.bool(), probed: Vec::new(), requests_seen: 0 })
+        let cred = Cred::new(p.monitors, &cfg.mech);
+        Ok(Walk { sim, resp: Responder::new(&cfg), net: Vec::new(), p, st_prefer_sha: rng.bool(), probed: Vec::new(), requests_seen: 0, cred })
     }
 
     fn delay(&self, rng: &mut Rng, rto: u64) -> u64 {
@@ -163,6 +196,9 @@ impl<'a> Walk<'a> {
     fn plan_for(&mut self, ctx: &mut Ctx, rng: &mut Rng, id: Id, method: u16, bytes: &[u8]) {
         self.resp.observe_request(bytes);
         self.requests_seen += 1;
+        if let Some(a) = self.cred.agreed {
+            self.st_prefer_sha = a;
+        }
         let rto = self.sim.index.get(&id).map(|i| self.sim.txs[*i].rto).unwrap_or(500_000_000);
         let now = self.sim.now;
         if rng.below(1000) < self.p.silence_pm as u64 {
@@ -172,6 +208,9 @@ impl<'a> Walk<'a> {
         let faulty = rng.below(1000) < self.p.fault_pm as u64;
         let mech = self.sim.cfg.mech.clone();
         let mut plans: Vec<Plan> = Vec::new();
+        if faulty && self.sim.cfg.fingerprint && mech != Mech::None && rng.chance(1, 3) {
+            plans.push(Plan::FpFault(*rng.pick(&[Fp::Absent, Fp::Bad, Fp::NotLast])));
+        }
         match mech {
             Mech::None => {
                 if faulty && self.sim.cfg.fingerprint {
@@ -187,7 +226,7 @@ impl<'a> Walk<'a> {
                 if faulty {
                     let n = 1 + rng.below(2);
                     for _ in 0..n {
-                        plans.push(Plan::BadAuth(rng.pick(&[Integ::None, Integ::MiBad, Integ::ShaBad, Integ::MiWrongKey, Integ::ShaWrongKey, Integ::Both]).clone()));
+                        plans.push(Plan::BadAuth(rng.pick(&[Integ::None, Integ::MiBad, Integ::ShaBad, Integ::MiWrongKey, Integ::ShaWrongKey, Integ::Both, Integ::Mi, Integ::Sha]).clone()));
                     }
                     if rng.bool() {
                         plans.push(Plan::Good { error: None });
@@ -198,9 +237,9 @@ impl<'a> Walk<'a> {
             }
             Mech::LongTerm => {
                 if self.resp.lt.is_none() || rng.chance(1, 6) {
-                    plans.push(Plan::Challenge401 { algs: rng.below(5) as u8, anonymity: rng.chance(1, 4), cookie: rng.bool(), new_realm: rng.chance(1, 4) });
+                    plans.push(Plan::Challenge401 { algs: rng.below(8) as u8, anonymity: rng.chance(1, 4), cookie: rng.bool(), new_realm: rng.chance(1, 4) });
                 } else if faulty {
-                    plans.push(Plan::BadAuth(rng.pick(&[Integ::None, Integ::MiBad, Integ::ShaBad, Integ::MiWrongKey, Integ::ShaWrongKey]).clone()));
+                    plans.push(Plan::BadAuth(rng.pick(&[Integ::None, Integ::MiBad, Integ::ShaBad, Integ::MiWrongKey, Integ::ShaWrongKey, Integ::Both, Integ::Mi, Integ::Sha]).clone()));
                     if rng.bool() {
                         plans.push(Plan::Good { error: None });
                     }
@@ -225,9 +264,13 @@ impl<'a> Walk<'a> {
                     pkt.bytes = self.resp.bad_auth(&id, method, integ, err);
                 }
                 Plan::Challenge401 { algs, anonymity, cookie, new_realm } => {
-                    let (b, st) = self.resp.challenge(rng, &id, method, algs, anonymity, cookie, new_realm);
+                    let variant = if rng.chance(1, 8) { 1 + rng.below(3) as u8 } else { 0 };
+                    let (b, st) = self.resp.challenge_variant(rng, &id, method, algs, anonymity, cookie, new_realm, variant);
                     pkt.bytes = b;
                     pkt.lt_on_retry = Some(st);
+                    if variant != 0 {
+                        pkt.label = format!("challenge-401-variant{}", variant);
+                    }
                 }
                 Plan::Stale438 => match self.resp.stale(&id, method, rng.bool()) {
                     Some((b, nonce)) => {
@@ -299,11 +342,12 @@ impl<'a> Walk<'a> {
 
     pub fn do_send(&mut self, ctx: &mut Ctx, rng: &mut Rng) {
         let method = *rng.pick(&[1u16, 1, 3, 4, 8, 9, 0x7F]);
-        let (attrs, desc) = app_attrs(rng, 3);
-        let buf = if rng.chance(1, 25) { rng.below(30) as usize } else { 2048 };
+        let (attrs, list, desc) = app_attrs(rng, if self.p.rich_app { 8 } else { 3 }, self.p.rich_app);
+        let buf = if rng.chance(1, 25) { rng.below(30) as usize } else { 4096 };
         let r = self.sim.send_request(ctx, method, attrs, &desc, buf);
         if let OpResult::Sent(id) = r {
             let bytes = self.sim.txs[self.sim.index[&id]].first_bytes.clone();
+            self.cred.on_output(ctx, &self.sim, &id, &bytes, method, false, Some(&list), Some(APP_KEY.as_bytes()));
             self.plan_for(ctx, rng, id, method, &bytes);
         }
         self.handle_events(ctx, rng, &[], None);
@@ -314,10 +358,11 @@ impl<'a> Walk<'a> {
     /// Returns the events of the delivery.
     pub fn scripted_exchange(&mut self, ctx: &mut Ctx, rng: &mut Rng, kind: u8, algs: u8, anonymity: bool) -> Vec<Ev> {
         let method = 1u16;
-        let (attrs, desc) = app_attrs(rng, 2);
-        let r = self.sim.send_request(ctx, method, attrs, &desc, 2048);
+        let (attrs, list, desc) = app_attrs(rng, 2, self.p.rich_app);
+        let r = self.sim.send_request(ctx, method, attrs, &desc, 4096);
         let OpResult::Sent(id) = r else { return vec![] };
         let bytes = self.sim.txs[self.sim.index[&id]].first_bytes.clone();
+        self.cred.on_output(ctx, &self.sim, &id, &bytes, method, false, Some(&list), Some(APP_KEY.as_bytes()));
         self.resp.observe_request(&bytes);
         self.requests_seen += 1;
         let mut pkt = Packet { at: self.sim.now, bytes: vec![], label: String::new(), lt_on_retry: None, nonce_on_retry: None };
@@ -343,14 +388,59 @@ impl<'a> Walk<'a> {
             }
         }
         self.sim.now += 1_000 + rng.below(5_000_000);
-        let (_, evs) = self.sim.recv(ctx, &pkt.label.clone(), &pkt.bytes.clone());
+        let (_, evs) = self.recv(ctx, &pkt.label.clone(), &pkt.bytes.clone(), Some(&pkt));
         self.handle_events(ctx, rng, &evs, Some(&pkt));
         evs
     }
 
+    /// on_buffer_recv through the simulation + credential monitors
+    pub fn recv(&mut self, ctx: &mut Ctx, label: &str, bytes: &[u8], pkt: Option<&Packet>) -> (OpResult, Vec<Ev>) {
+        let mut id = [0u8; 12];
+        if bytes.len() >= 20 {
+            id.copy_from_slice(&bytes[8..20]);
+        }
+        let before_awaiting = self.sim.index.get(&id).map(|i| self.sim.txs[*i].state == TxState::Awaiting).unwrap_or(false);
+        let (res, evs) = self.sim.recv(ctx, label, bytes);
+        if !self.sim.dead {
+            self.cred.on_delivery(
+                ctx,
+                &self.sim,
+                bytes,
+                &res,
+                &evs,
+                before_awaiting,
+                pkt.and_then(|p| p.lt_on_retry.as_ref()),
+                pkt.and_then(|p| p.nonce_on_retry.as_deref()),
+            );
+        }
+        (res, evs)
+    }
+
+    pub fn timeout(&mut self, ctx: &mut Ctx, why: &str) -> Vec<Ev> {
+        let evs = self.sim.timeout(ctx, why);
+        if !self.sim.dead {
+            self.cred.on_timeout_events(ctx, &self.sim, &evs);
+        }
+        evs
+    }
+
     pub fn do_indication(&mut self, ctx: &mut Ctx, rng: &mut Rng) {
-        let (attrs, _) = app_attrs(rng, 2);
-        let _ = self.sim.send_indication(ctx, *rng.pick(&[1u16, 6, 7]), attrs, if rng.chance(1, 20) { 8 } else { 1024 });
+        let (attrs, list, _) = app_attrs(rng, if self.p.rich_app { 6 } else { 2 }, self.p.rich_app);
+        let method = *rng.pick(&[1u16, 6, 7]);
+        let (res, evs) = self.sim.send_indication(ctx, method, attrs, if rng.chance(1, 20) { 8 } else { 4096 });
+        match (&res, &self.sim.cfg.mech) {
+            (OpResult::Sent(id), m) => {
+                if *m == Mech::LongTerm && self.cred.monitors & crate::cred::M_C08 != 0 {
+                    ctx.violation("c08:indication-sent-with-long-term-credentials", "send_indication succeeded although the long-term mechanism cannot protect indications".into(), self.sim.witness());
+                }
+                if let Some(Ev::Output { bytes, .. }) = evs.first() {
+                    let b = bytes.clone();
+                    self.cred.on_output(ctx, &self.sim, id, &b, method, true, Some(&list), Some(APP_KEY.as_bytes()));
+                }
+            }
+            (OpResult::SendErr(_), Mech::LongTerm) => ctx.count("c08.indication-refused"),
+            _ => {}
+        }
     }
 
     pub fn do_deliver(&mut self, ctx: &mut Ctx, rng: &mut Rng) {
@@ -368,7 +458,7 @@ impl<'a> Walk<'a> {
         if pkt.at > self.sim.now {
             self.sim.now = pkt.at.min(TIME_CAP + 1);
         }
-        let (_, evs) = self.sim.recv(ctx, &pkt.label, &pkt.bytes);
+        let (_, evs) = self.recv(ctx, &pkt.label.clone(), &pkt.bytes.clone(), Some(&pkt));
         ctx.count(&format!("deliver.{}", pkt.label.trim_start_matches("dup-").trim_start_matches("late-dup-")));
         self.handle_events(ctx, rng, &evs, Some(&pkt));
     }
@@ -396,7 +486,7 @@ impl<'a> Walk<'a> {
         }
         let t = at.max(self.sim.now).saturating_add(late);
         self.sim.now = t.min(TIME_CAP + 1).max(self.sim.now);
-        let evs = self.sim.timeout(ctx, if late > 0 { "late" } else { "on-time" });
+        let evs = self.timeout(ctx, if late > 0 { "late" } else { "on-time" });
         self.handle_events(ctx, rng, &evs, None);
     }
 
@@ -405,14 +495,14 @@ impl<'a> Walk<'a> {
             if at > self.sim.now + 1 {
                 self.sim.now += rng.below(at - self.sim.now - 1);
                 ctx.count("timer.early");
-                let evs = self.sim.timeout(ctx, "early");
+                let evs = self.timeout(ctx, "early");
                 self.handle_events(ctx, rng, &evs, None);
                 return;
             }
         }
         // no timer armed: a spurious call must be harmless too
         ctx.count("timer.spurious");
-        let evs = self.sim.timeout(ctx, "spurious");
+        let evs = self.timeout(ctx, "spurious");
         self.handle_events(ctx, rng, &evs, None);
     }
 
@@ -510,7 +600,7 @@ impl<'a> Walk<'a> {
             }
         };
         ctx.count(&format!("probe.{}", label));
-        let (_, evs) = self.sim.recv(ctx, label, &bytes);
+        let (_, evs) = self.recv(ctx, label, &bytes, None);
         self.handle_events(ctx, rng, &evs, None);
     }
 
@@ -589,7 +679,7 @@ impl<'a> Walk<'a> {
         }
         // far-future timer call: nothing may happen any more
         self.sim.now += 3_600_000_000_000;
-        let evs = self.sim.timeout(ctx, "far-future");
+        let evs = self.timeout(ctx, "far-future");
         if !evs.is_empty() && self.sim.on(crate::sim::M_C05) && self.sim.awaiting_count() == 0 {
             ctx.violation(
                 "c05:events-after-everything-finished",
